@@ -457,3 +457,129 @@ def first_difference(a, b, path="ret"):
 def _short(t):
     s = repr(t)
     return s if len(s) < 160 else s[:157] + "..."
+
+
+# -------------------------------------------------------------------------------------
+# canonical placement of conditionals: f(if(c, A, B)) == if(c, f(A), f(B)); nested ifs are
+# ordered by their condition; x is None inside the None-branch of ifnone(x, ., .)
+# -------------------------------------------------------------------------------------
+
+
+class _Budget(Exception):
+    pass
+
+
+def _is_if(n):
+    return is_term(n) and n[0] in ("if", "ifnone") and len(n) == 4
+
+
+def _ckey(n):
+    return (n[0], n[1])
+
+
+def _assume(n, key, branch):
+    """n with its top-level conditional on ``key`` resolved to ``branch`` (2 = then/none, 3 = else/some)."""
+    if _is_if(n) and _ckey(n) == key:
+        return _assume(n[branch], key, branch)
+    if _is_if(n):
+        return (n[0], n[1], _assume(n[2], key, branch), _assume(n[3], key, branch))
+    return n
+
+
+def _tops(n, out):
+    if _is_if(n):
+        out.add(_ckey(n))
+        _tops(n[2], out)
+        _tops(n[3], out)
+
+
+def _subst_none(n, x):
+    if n == x:
+        return ("const", None)
+    if not isinstance(n, tuple):
+        return n
+    return tuple(_subst_none(y, x) if isinstance(y, tuple) else y for y in n)
+
+
+def _rebuild(n):
+    if is_term(n) and n[0] == "bar" and len(n) == 2:
+        parts = []
+        for p in n[1]:
+            parts += _bar_parts(p)
+        return _mk_bar(parts)
+    if is_term(n) and n[0] == "cat" and len(n) == 2:
+        return _mk_cat(list(n[1]))
+    return n
+
+
+def hoist(n, budget=None):
+    """Decision-tree normal form of a normalised term (bounded; returns the input unchanged when the
+    tree would get too large)."""
+    counter = [0]
+    memo = {}
+
+    def go(n):
+        if not isinstance(n, tuple):
+            return n
+        if n in memo:
+            return memo[n]
+        counter[0] += 1
+        if counter[0] > 200000:
+            raise _Budget
+        r = go1(n)
+        memo[n] = r
+        return r
+
+    def go1(n):
+        if _is_if(n):
+            c = go(n[1])
+            a, b = go(n[2]), go(n[3])
+            if n[0] == "ifnone":
+                a = go(_subst_none(a, c))
+            key = (n[0], c)
+            a, b = _assume(a, key, 2), _assume(b, key, 3)
+            if a == b:
+                return a
+            tops = set()
+            _tops(a, tops)
+            _tops(b, tops)
+            lower = [k for k in tops if repr(k) < repr(key)]
+            if lower:
+                k = min(lower, key=repr)
+                return go((k[0], k[1], (n[0], c, _assume(a, k, 2), _assume(b, k, 2)), (n[0], c, _assume(a, k, 3), _assume(b, k, 3))))
+            return (n[0], c, a, b)
+        kids = tuple(go(x) if isinstance(x, tuple) else x for x in n)
+        tops = set()
+        for x in kids:
+            if isinstance(x, tuple):
+                _tops_shallow(x, tops)
+        if not tops:
+            return _rebuild(kids)
+        k = min(tops, key=repr)
+        then = tuple(_assume_shallow(x, k, 2) if isinstance(x, tuple) else x for x in kids)
+        els = tuple(_assume_shallow(x, k, 3) if isinstance(x, tuple) else x for x in kids)
+        return go((k[0], k[1], then, els))
+
+    try:
+        return go(n)
+    except (_Budget, RecursionError):
+        return n
+
+
+def _tops_shallow(x, out):
+    """Conditionals at the top of a child (children are already decision trees)."""
+    if _is_if(x):
+        _tops(x, out)
+    elif isinstance(x, tuple) and not is_term(x):
+        # plain tuples of terms (argument lists, keyword pairs)
+        for y in x:
+            if isinstance(y, tuple):
+                _tops_shallow(y, out)
+
+
+def _assume_shallow(x, key, branch):
+    if _is_if(x):
+        return _assume(x, key, branch)
+    if isinstance(x, tuple) and not is_term(x):
+        return tuple(_assume_shallow(y, key, branch) if isinstance(y, tuple) else y for y in x)
+    return x
